@@ -48,3 +48,39 @@ package gzip
 //@   requires *c != nil
 //@   ensures [C18.pool.own] typeIs(result, *writer) && asType(result, *writer) != nil && fresh(asType(result, *writer)) && asType(result, *writer).Writer != nil && fresh(asType(result, *writer).Writer)
 //@   modifies nothing
+
+// ---------------------------------------------------------------- Compress / Decompress (C18)
+
+// `target`: the stream a pooled (de)compressor was last pointed at. Compress hands out a writer that
+// compresses INTO the caller's writer (not into the stream of the call that used it before, and not
+// into the io.Discard it was built on); Decompress a reader that reads FROM the caller's reader -
+// whether it comes from the pool or is new.
+//@ ghostfield any.target Iface
+//@ func gzip.(*Writer).Reset
+//@   assumed
+//@   params w, dst
+//@   ensures w.target == dst && w.busy
+//@   modifies w.target, w.busy
+//@ func gzip.NewReader
+//@   assumed
+//@   params r
+//@   results z, err
+//@   ensures err == nil ==> z != nil && fresh(z) && z.target == r && z.busy
+//@   modifies nothing
+//@ func gzip.(*Reader).Reset
+//@   assumed
+//@   params z, r
+//@   ensures z.target == r && z.busy
+//@   modifies z.target, z.busy
+//@ func (*compressor).Compress
+//@   maypanic
+//@   results wc, err
+//@   requires c != nil
+//@   ensures [C18.compress.target] err == nil && typeIs(wc, *writer) && asType(wc, *writer) != nil && asType(wc, *writer).Writer.target == w && asType(wc, *writer).Writer.busy
+//@   modifies family(G_any_target), family(G_any_busy)
+//@ func (*compressor).Decompress
+//@   maypanic
+//@   results rd, err
+//@   requires c != nil
+//@   ensures [C18.decompress.source] err == nil ==> typeIs(rd, *reader) && asType(rd, *reader) != nil && asType(rd, *reader).Reader.target == r && asType(rd, *reader).Reader.busy
+//@   modifies family(G_any_target), family(G_any_busy)
